@@ -337,10 +337,9 @@ theorem timer_completes_iff_end_value (c : Cfg) (iv : Nat) (s : T) (hs : reachab
     | some a =>
       simp only [ha] at h
       split at h
-      · simp only [hd, if_true] at h
-        injection h with h; subst h
+      · injection h with h; subst h
         exact (doComplete_facts c _ hd).2.1
-      · cases h
+      · first | cases h | (rename_i hnd; exact absurd hd hnd) | skip
   · intro t hd
     exact ⟨(doComplete_facts c t hd).2.2.1, (doComplete_facts c t hd).2.2.2⟩
 
